@@ -16,7 +16,7 @@ Your task: make ONE realistic change to the library's (non-test) source in /tmp/
 Deliverables, written to /tmp/seed-out/{pid}/ (create it):
   1. patch.diff — `git -C /tmp/seed-{pid} diff` of your change (library source only).
   2. A demonstration that FAILS with your change and PASSES without it: either a Go test file (say demo_test.go, package vgirpc or an external _test package — tell me where it must be placed) or a small standalone program. Keep a copy in /tmp/seed-out/{pid}/ and say exactly how to run it.
-  3. NOTES.md — which clause of the property the change breaks, what it needs in order to manifest (the specific interleaving / fault / sequence / input), and the exact commands you ran with their results (existing tests passing with the change; demo failing with the change; demo passing without it — use `git stash` inside your worktree to compare).
+  3. NOTES.md — which clause of the property the change breaks, what it needs in order to manifest (the specific interleaving / fault / sequence / input), and the exact commands you ran with their results (existing tests passing with the change; demo failing with the change; demo passing without it — to compare, use `git diff > /tmp/seed-out/{pid}/patch.diff; git apply -R /tmp/seed-out/{pid}/patch.diff; …run…; git apply /tmp/seed-out/{pid}/patch.diff`; NEVER use `git stash`: the stash is shared between all worktrees of this repository and other people are working in sibling worktrees).
 
 Toolchain (no network in this sandbox): in every shell call run
   export GOFLAGS=-mod=mod GOPROXY=off GOSUMDB=off GOTOOLCHAIN=local; GO=/root/go/pkg/mod/golang.org/toolchain@v0.0.1-go1.26.0.linux-amd64/bin/go
